@@ -180,6 +180,7 @@ def extract(repo: Path) -> Tuple[Dict[str, Any], List[str]]:
     # ---- _extract.py: what each entry point passes to current_options.push(), and how push restores (C13, C16) ----
     t = parse("_extract.py")
     push_fwd: List[str] = []
+    wrapper_fwd: List[str] = []
     if t is not None:
         for fname in ("extract", "extract_outermost", "fill_context"):
             fn = _func(t, fname)
@@ -207,7 +208,34 @@ def extract(repo: Path) -> Tuple[Dict[str, Any], List[str]]:
             else:
                 shape = "no-try"
         out["pushShape"] = shape
+        # the convenience spellings: what each `extract(...)` call inside extract_since / extract_until hands on
+        for fname in ("extract_since", "extract_until"):
+            fn = _func(t, fname)
+            if fn is None:
+                problems.append(f"_extract.{fname} not found")
+                continue
+            dicts = {}
+            for n in ast.walk(fn):
+                if isinstance(n, ast.Assign) and len(n.targets) == 1 and isinstance(n.targets[0], ast.Name) and isinstance(n.value, ast.Dict):
+                    if all(isinstance(k, ast.Constant) for k in n.value.keys):
+                        dicts[n.targets[0].id] = {k.value: ast.unparse(v) for k, v in zip(n.value.keys, n.value.values)}
+            calls = [n for n in ast.walk(fn) if isinstance(n, ast.Call) and isinstance(n.func, ast.Name) and n.func.id == "extract"]
+            calls.sort(key=lambda n: (n.lineno, n.col_offset))
+            if not calls:
+                problems.append(f"_extract.{fname}: no call of extract(...)")
+            for n in calls:
+                fwd = {}
+                for kw in n.keywords:
+                    if kw.arg is None:
+                        if isinstance(kw.value, ast.Name) and kw.value.id in dicts:
+                            fwd.update(dicts[kw.value.id])
+                        else:
+                            fwd["**"] = ast.unparse(kw.value)
+                    else:
+                        fwd[kw.arg] = ast.unparse(kw.value)
+                wrapper_fwd.append(fname + ":" + ",".join(f"{k}={v}" for k, v in sorted(fwd.items())))
     out["pushForward"] = push_fwd
+    out["wrapperForward"] = wrapper_fwd
 
     # ---- whole package: census of state that outlives a call (C06) ----
     census: List[str] = []
